@@ -12,7 +12,7 @@ import uni_common as U
 import c03_uni as G3
 
 PROPERTY = "C01"
-LEAN_MODULES = ["Proofs.C01.Uni"]
+LEAN_MODULES = ["Proofs.C01.Uni", "Proofs.C01.UniLent", "Proofs.C01.UniSqueeth"]
 DRIVERS = ["driver"]
 RULE = ("[uni] random pools (decimals, fee tier, both token orders) and operation sequences (1–10 of add / remove / collect / swap / buy / sell / "
         "rebalance / add by value / transfer out / transfer in / a new bar with fee accrual); after every step get_market_balance and "
@@ -116,7 +116,8 @@ def new_bar(rng, w):
     w.tick = t
     w.price = w.market.tick_to_price(t)
     w.set_status(t, w.price, Decimal(rng.randint(10 ** 12, 10 ** 24)), Decimal(rng.randint(0, 10 ** 22)), Decimal(rng.randint(0, 10 ** 22)))
-    w.market.update()
+    with U.guard("update"):
+        w.market.update()
 
 
 def run(ctx: Ctx):
@@ -139,8 +140,9 @@ def run(ctx: Ctx):
                 opj = {k: (fmt(v) if isinstance(v, Decimal) else v) for k, v in op.items()}
             hist.append(opj)
             rep = {"world": w.spec, "ops": list(hist)}
-            check_state(ctx, w, rep, op["op"])
-            b = w.market.get_market_balance()
+            with U.guard("get_market_balance/get_account_status", {"world": U.world_spec(w), "ops": []}):
+                check_state(ctx, w, rep, op["op"])
+                b = w.market.get_market_balance()
             impl = {"net_value": U.num(b.net_value), "liquidity_value": U.num(Decimal(b.liquidity_value)), "base_uncollected": U.num(Decimal(b.base_uncollected)),
                     "quote_uncollected": U.num(Decimal(b.quote_uncollected)), "base_in_position": U.num(Decimal(b.base_in_position)),
                     "quote_in_position": U.num(Decimal(b.quote_in_position)), "position_count": str(b.position_count)}
@@ -155,10 +157,13 @@ def run(ctx: Ctx):
                 d = U.diff_json(impl, o["ok"])
                 if d:
                     ctx.disagree(f"[uni] get_market_balance differs from the model at {d}", rep)
+    U.report_process_state(ctx)
 
 
 def replay(ctx: Ctx, case) -> bool:
     import random
+    if isinstance(case, dict) and case.get("kind") == "process-state":
+        return U.replay_process_state(case)
     sub = Ctx(ctx.prop, ctx.tier, ctx.seed, False)
     U.cap_violations(sub)
     rng = random.Random(5)
